@@ -18,6 +18,7 @@ THEOREMS = [_T + n for n in (
     "inv_after", "disc_after", "maxsize_after", "conservation", "conservation_count", "size_le_maxsize",
     "order_fifo", "order_lifo", "order_prio", "no_assertion", "waiters_consistent", "finished_iff", "unfinished_eq",
     "join_iff", "extra_task_done_raises", "task_done_le_puts", "getters_fifo", "putters_fifo",
+    "refines_spec", "refines_spec_state",
 )]
 TRUSTED = [
     "heapq: heappop returns a minimum, heappush/heappop preserve the multiset (the model keeps the heap's content as a sorted list)",
@@ -39,9 +40,9 @@ CLAUSES = {
     "every successfully put item is returned by exactly one get or remains queued": "conservation + conservation_count (history variables tied by wrapping _put/_get)",
     "items come out in the queue's order": "order_fifo + order_lifo + order_prio",
     "the queue never holds more than maxsize items": "size_le_maxsize (op boundaries)",
-    "blocked getters and putters are served in arrival order": "getters_fifo + putters_fifo (first live entry of the append-only deque) + waiters_consistent + no_assertion; end-to-end: tie (Spec oracle, FIFO wait lists)",
-    "timed-out operations have no effect": "tie only: Spec oracle (a timed-out waiter just leaves its list)",
-    "join completes exactly when every put has been matched by task_done": "finished_iff + unfinished_eq + join_iff; wake-up of pending joins at the last task_done: tie only",
+    "blocked getters and putters are served in arrival order": "getters_fifo + putters_fifo (first live entry of the append-only deque) + waiters_consistent + no_assertion; end-to-end: refines_spec (trace equality with the sequential Spec whose wait lists are FIFO)",
+    "timed-out operations have no effect": "refines_spec + refines_spec_state (in the Spec a timed-out waiter just leaves its list; the model produces the same trace)",
+    "join completes exactly when every put has been matched by task_done": "finished_iff + unfinished_eq + join_iff; wake-up of pending joins at the last task_done: refines_spec (Spec.taskDone completes every pending join)",
     "extra task_done calls raise": "extra_task_done_raises + task_done_le_puts",
 }
 PARALLEL = True
